@@ -40,7 +40,7 @@ RULE = ('Exhaustive, ordered enumeration (sharded by group index modulo) of '
         '{} and {author}) restricted to what SettingsSchema accepts x '
         'need_author_approval x per-user review state {absent, participant, '
         'approved, requested changes} for author, peer1, peer2, leader x '
-        'robot {absent, participant} x admin (participant|approved'
+        'robot {absent, participant, approved} x admin (participant|approved'
         '[|requested changes in thorough] whenever it posted a comment) x '
         'per-bypass source {none, admin comment via real handle_comments, '
         'pr_author_options, command line via gwf.setup} for the three '
@@ -48,8 +48,8 @@ RULE = ('Exhaustive, ordered enumeration (sharded by group index modulo) of '
         'line} x unanimity {off, comment by author, by peer1 [thorough: '
         'also by leader, by admin]}; host invariants: a comment poster is a '
         'participant, an approver does not request changes, the robot never '
-        'reviews. A decoy pr_author_options entry granting all bypasses to '
-        'peer1 is present when peers+leaders is odd. Every case goes through '
+        'requests changes. A decoy pr_author_options entry granting all '
+        'bypasses to peer1 is present when peers+leaders is odd. Every case goes through '
         'the real check_approvals on a real PullRequestJob. Non-trivial = at '
         'least two of the five clauses (author, peers, leaders, unanimity, '
         'change request) are live, i.e. not decided by a waiver / a zero '
@@ -129,8 +129,10 @@ def people_states(dom, bsrc, approve, poster):
     p1_states = (1, 2, 3) if who == PEER1 else (0, 1, 2, 3)
     l_states = (1, 2, 3) if who == LEADER else (0, 1, 2, 3)
     adm_states = dom['admin_states'] if (1 in bsrc or who == ADMIN) else (0,)
+    # (the robot account may have approved on the host: it is then one of
+    # "the approving reviewers other than the author")
     return itertools.product(a_states, p1_states, (0, 1, 2, 3), l_states,
-                             (0, 1), adm_states)
+                             (0, 1, 2), adm_states)
 
 
 def case_key(st, bsrc, approve, poster, people):
@@ -138,7 +140,7 @@ def case_key(st, bsrc, approve, poster, people):
     for v, radix in ((st[0], 4), (st[1], 3), (st[2], 4), (st[3], 2),
                      (bsrc[0], 4), (bsrc[1], 4), (bsrc[2], 4), (approve, 3),
                      (poster, 5), (people[0], 4), (people[1], 4),
-                     (people[2], 4), (people[3], 4), (people[4], 2),
+                     (people[2], 4), (people[3], 4), (people[4], 3),
                      (people[5], 4)):
         k = k * radix + v
     return k
